@@ -144,3 +144,143 @@ c22 = _simple("C22", gen.profile(p_eff=0.1, live=0.0, clocks=("fine",), hosts=((
                                             clear_spy=0, clear_trace=0, empty_rtc=0)), 2500, 40000)
 c23 = _simple("C23", gen.profile(p_eff=0.2, live=0.0, clocks=("fine",), hosts=(("queued", 4), ("instr", 3), ("plain", 3)),
                                  p_spied=0.6), 2500, 40000)
+
+
+# ---------------------------------------------------------------- C24
+def _bad_maker(rng, P):
+  chart = gen.gen_chart(rng, P)
+  n, par = chart["n"], chart["par"]
+  if rng.random() < 0.7:
+    st = rng.randint(1, n)
+    desc = set(gen.descendants(par, st))
+    cands = [x for x in range(1, n + 1) if x not in desc]     # itself, ancestors, unrelated states
+    chart["bad"] = ["init", st, rng.choice(cands)]
+    chart["init"][st - 1] = 0
+  else:
+    st = rng.randint(1, n)
+    chart["bad"] = ["none", st, rng.choice(chart["sigs"])]
+  ops = gen.gen_ops(rng, chart, P)
+  if rng.random() < 0.4:
+    ops[0] = ["start", chart["bad"][1]]
+  return chart, ops
+
+
+def _reached_bad(t):
+  return t["ev"][-1]["outcome"] != "ok" and t["ev"][-1]["k"] != "child_state"
+
+
+def c24(tier):
+  run = common.Run("C24", tier, "model_checking")
+  run.assumptions += ASSUME_SEQ + ["exactly one fault per chart: an initial transition whose target is not a proper descendant, or a handler returning None for an offered event"]
+  P = gen.profile(nmin=1, nmax=9, deep=0.6, p_init=0.5, w_tran=45, w_none=40, w_hook=10, w_unh=5, live=0.0, clocks=("fine",),
+                  p_eff=0.05, hosts=(("queued", 4), ("instr", 3), ("plain", 3)), p_spied=0.6, nops=(2, 8),
+                  w_ops=dict(step=50, dispatch=40, post=0, defer=0, recall=0, is_in=3, child=0, scribble=0, clear_spy=0,
+                             clear_trace=0, empty_rtc=0))
+  with cf.ThreadPoolExecutor(2) as ex:
+    f = ex.submit(model_check_hsm, run, tier)
+    traces = seqcheck.run(run, "C24", 3000 if tier == "quick" else 40000, P, maker=_bad_maker, is_nontrivial=_reached_bad)
+    f.result()
+  run.add(traces_reaching_the_fault=sum(1 for t in traces if _reached_bad(t)))
+  return run.finish()
+
+
+# ---------------------------------------------------------------- C17
+def _build_maker(rng, P):
+  from harness import chartgen
+  chart = gen.gen_chart(rng, P)
+  chart["build"] = rng.choice(["hand", "template", "factory", "tocode", "tocode"])
+  chart["spied"] = True
+  chart["host"] = "factory" if chart["build"] == "factory" or (chart["build"] == "tocode" and rng.random() < 0.3) else "queued"
+  chart["live_spy"] = chart["live_trace"] = False
+  if chart["host"] == "factory":
+    chart["cap"] = 500
+  if not chartgen.registered_list(chart):
+    chart["estyle"][0] = "h"
+  chart["reg"] = chartgen.registered_list(chart)
+  ops = gen.gen_ops(rng, chart, P)
+  return chart, ops
+
+
+def _attr_c17(v):
+  return {"C17"} if set(v.get("bad", [])) & {"Outcome", "Calls", "SpyCalls", "Cur", "Marks", "Q", "DQ", "Trc", "Name", "CurState", "Ret"} else set()
+
+
+def c17(tier):
+  run = common.Run("C17", tier, "model_checking")
+  run.assumptions += ASSUME_SEQ + [
+    "callbacks are plain functions with unique names (not bound methods, not named 'handled'); states are passed as functions, not strings",
+    "the Factory chart is driven through HsmWithQueues.start_at/next_rtc without starting the active object's thread"]
+  P = gen.profile(nmin=1, nmax=8, deep=0.6, p_init=0.4, live=0.0, clocks=("fine",), p_eff=0.3, hosts=(("queued", 1),),
+                  p_spied=1.0, caps=(3, 500), nops=(3, 10),
+                  w_ops=dict(step=60, dispatch=0, post=10, defer=5, recall=5, is_in=3, child=2, scribble=0, clear_spy=0,
+                             clear_trace=0, empty_rtc=3))
+  with cf.ThreadPoolExecutor(2) as ex:
+    f = ex.submit(model_check_hsm, run, tier)
+    traces = seqcheck.run(run, "C17", 3000 if tier == "quick" else 40000, P, maker=_build_maker, attr=_attr_c17)
+    f.result()
+  byb = {}
+  for t in traces:
+    byb[t["chart"]["build"]] = byb.get(t["chart"]["build"], 0) + 1
+  run.add(traces_per_build=byb)
+  return run.finish()
+
+
+# ---------------------------------------------------------------- C18
+C18_CONFIGS = [("plain", True, 0, 0), ("plain", False, 0, 0), ("instr", True, 0, 0), ("instr", False, 0, 0),
+               ("queued", False, 0, 0), ("queued", False, 1, 1),
+               ("queued", True, 0, 0), ("queued", True, 1, 0), ("queued", True, 0, 1), ("queued", True, 1, 1)]
+
+
+def _config_maker(rng, P, tid, seed):
+  import random
+  base = random.Random((seed << 20) ^ (tid // len(C18_CONFIGS)) * 7919)
+  chart = gen.gen_chart(base, P)
+  n = chart["n"]
+  start = base.randint(1, n)
+  sigs = [base.choice(chart["sigs"]) for _ in range(base.randint(2, 8))]
+  host, spied, ls, lt = C18_CONFIGS[tid % len(C18_CONFIGS)]
+  chart.update({"host": host, "spied": spied, "live_spy": bool(ls), "live_trace": bool(lt), "eff": [],
+                "clock": base.choice(["fine", "const", "coarse"])})
+  ops = [["start", start]]
+  for sg in sigs:
+    if host == "queued":
+      ops += [["post_fifo", sg], ["next_rtc"]]
+    else:
+      ops.append(["dispatch", sg])
+  return chart, ops
+
+
+_config_maker.wants_tid = True
+
+
+def _attr_c18(v):
+  return {"C18"} if set(v.get("bad", [])) & {"Outcome", "Calls", "Cur", "Name"} else set()
+
+
+def c18(tier):
+  run = common.Run("C18", tier, "model_checking")
+  run.assumptions += ASSUME_SEQ + ["the same chart and event sequence is run under %d configurations (host x decorator x live flags x clock); "
+                                   "each must conform to the same Hsm.tla behaviour, hence to each other" % len(C18_CONFIGS),
+                                   "the active-object host is covered by the C04/C07 harness, not here"]
+  P = gen.profile(nmin=1, nmax=12, deep=0.75, p_init=0.4, p_eff=0.0)
+  nbase = 300 if tier == "quick" else 5000
+  with cf.ThreadPoolExecutor(2) as ex:
+    f = ex.submit(model_check_hsm, run, tier)
+    traces = seqcheck.run(run, "C18", nbase * len(C18_CONFIGS), P, maker=_config_maker, attr=_attr_c18)
+    f.result()
+  # cross-configuration agreement of the independent action logs (what TLC's verdicts imply), measured directly
+  groups, disagree = {}, 0
+  for t in traces:
+    vis = [[(c[0], c[1]) for c in e["log"] if c[0] in ("ENTRY_SIGNAL", "EXIT_SIGNAL", "INIT_SIGNAL") or c[0] in t["chart"]["sigs"]]
+           for e in t["ev"] if e["k"] in ("start", "dispatch", "next_rtc")]
+    groups.setdefault(t["tid"] // len(C18_CONFIGS), []).append((t, vis, [e["cur"] for e in t["ev"] if e["k"] in ("start", "dispatch", "next_rtc")]))
+  for g, lst in groups.items():
+    ref = lst[0]
+    for t, vis, curs in lst[1:]:
+      if vis != ref[1] or curs != ref[2]:
+        disagree += 1
+        run.violation("config-disagreement", "configuration %s/%s behaves differently from %s/%s on the same chart and events" % (
+          t["chart"]["host"], t["chart"]["spied"], ref[0]["chart"]["host"], ref[0]["chart"]["spied"]),
+          {"chart": t["chart"], "ops": t["ops"], "other_chart": ref[0]["chart"], "other_ops": ref[0]["ops"]})
+  run.add(base_cases=len(groups), configurations=len(C18_CONFIGS), cross_configuration_disagreements=disagree)
+  return run.finish()
